@@ -167,6 +167,13 @@ class Gen:
             return self.atom()
         if r.random() < 0.05:
             return self.data_apply()
+        if r.random() < 0.03:
+            # re-apply / self reference reached through the operands of `&&` / `||` (the containing-expression
+            # bookkeeping of the logical operators), always guarded so that the loop ends
+            n = r.choice(["1", "2", "3"])
+            return r.choice(["$ == %s || ^~ %s" % (n, n), "$ != %s && ^~ %s" % (n, n), "$ == %s || ($ < %s ?> ^~ $ + 1 |> 9)" % (n, n),
+                             "$? && {}", "() || {}", "$ == %s || (1 && ^~ %s)" % (n, n), "($ == %s || ^~ %s) + 1" % (n, n),
+                             "{ $ == %s || ^~ %s } <~ 0" % (n, n), "$ == %s && 5 || ^~ %s" % (n, n)])
         k = r.random()
         if k < 0.18:
             return self.atom()
@@ -263,6 +270,7 @@ FIXED_SOURCES = [
     "(:a = (:b = 5,),) <~ :a.b", "(:a = (:b = 5,),) <~ :a.c", "(:a = (:b = 5,),) <~ :x.b", "1, ((:a = (:b = 5,),) <~ :a.c), 3",
     "{ [(:a = (:b = 5,),) <~ :a.c] $ < 3 ?> ^~ ($ + 1) |> $ } <~ 0", "(1 2 3) <~ 7", "(1 2 3) <~ :b.0", "\"abc\" <~ 5", "(1..5) <~ 9",
     "1 (5) [2] 3", "1, (5) [2], 3", "{5} [2] 3", "7 + (1 (5) [2] 3)",
+    "$ == 3 || ^~ 3", "$ != 3 && ^~ 3", "$? && {}", "() || {}", "{ $ == 2 || ^~ 2 } <~ 0", "$ == 3 || (1 && ^~ 3)",
 ]
 
 
